@@ -541,3 +541,170 @@ Theorem selected_plus_minus lang (X p : float) nt (c : str) :
 Proof. intros H. by_lang H. Qed.
 
 End Selected.
+
+(* ------------------------------------------------------------------------------------------ *)
+(* 6. non-vacuity: concrete values                                                              *)
+(* ------------------------------------------------------------------------------------------ *)
+Section Examples.
+Local Open Scope Qc_scope.
+
+Definition qz (z : Z) : Qc := Qc_of_Z z.
+Definition qfrac (n : Z) (d : positive) : Qc := Q2Qc (n # d).
+Definition qtok (t : token Qc) : token_info Qc :=
+  {| ti_start := 0; ti_end := 0; ti_ty := Some t; ti_text := []; ti_active := true |}.
+
+Lemma qc_eq_compute (a b : Qc) : Qeq_bool a b = true -> a = b.
+Proof. intros H. apply Qc_is_canon. apply Qeq_bool_iff. exact H. Qed.
+
+(* the formulas on the values of the crate's own tests (6% and 40), a negative, a fractional and
+   a zero argument *)
+Lemma formulas_examples :
+  pct_on (qz 40) (qz 6) = qfrac 212 5 /\ pct_off (qz 40) (qz 6) = qfrac 188 5 /\
+  pct_of (qz 40) (qz 6) = qfrac 12 5 /\ pct_plus (qz (-50)) (qz 10) = qz (-55) /\
+  pct_minus (qz (-50)) (qz 10) = qz (-45) /\ pct_plus (qz 50) (qz (-10)) = qz 45 /\
+  pct_of (qfrac 20001 20) (qfrac 1 2) = qfrac 20001 4000 /\
+  what_percent (qz 20) (qz 50) = qz 40 /\ what_percent (qz 5) (qz 0) = qz 0 /\
+  of_what (qz 20) (qz 10) = qz 200 /\ of_what (qz 5) (qz 0) = qz 0 /\
+  pct_on (qz 0) (qz 15) = qz 0 /\ pct_off (qz 80) (qz 100) = qz 0.
+Proof. repeat split; apply qc_eq_compute; vm_compute; reflexivity. Qed.
+
+(* the hypotheses of the rule-function theorems are satisfiable: a money amount and a percent *)
+Lemma rule_example_money (cfg : config Qc) :
+  let fs := [(s "number", qtok (TMoney (qz 40) (s "USD"))); (s "p", qtok (TPercent (qz 6)))] in
+  number_on cfg [] fs = Ok (Some (TMoney (qfrac 212 5) (s "USD"))) /\
+  number_of cfg [] fs = Ok (Some (TMoney (qfrac 12 5) (s "USD"))) /\
+  number_off cfg [] fs = Ok (Some (TMoney (qfrac 188 5) (s "USD"))).
+Proof.
+  intros fs.
+  assert (H1 : field_amount [] "number" fs = Some (Cash (qz 40) (s "USD"))) by reflexivity.
+  assert (H2 : field_percent [] "p" fs = Some (qz 6)) by reflexivity.
+  rewrite (number_on_q cfg [] fs _ _ H1 H2), (number_of_q cfg [] fs _ _ H1 H2),
+    (number_off_q cfg [] fs _ _ H1 H2).
+  cbn [amt_val amt_with amount_token].
+  destruct formulas_examples as (E1 & E2 & E3 & _). rewrite E1, E2, E3. repeat split.
+Qed.
+
+Lemma rule_example_what (cfg : config Qc) :
+  find_numbers_percent []
+    [(s "part", qtok (TNumber (qz 20) Decimal)); (s "total", qtok (TNumber (qz 50) Decimal))]
+    = Ok (Some (TPercent (qz 40))) /\
+  find_numbers_percent []
+    [(s "part", qtok (TMoney (qz 5) (s "EUR"))); (s "total", qtok (TMoney (qz 0) (s "EUR")))]
+    = Ok (Some (TPercent (qz 0))) /\
+  find_total_from_percent cfg []
+    [(s "number_part", qtok (TMoney (qz 20) (s "TRY"))); (s "percent_part", qtok (TPercent (qz 10)))]
+    = Ok (Some (TMoney (qz 200) (s "TRY"))).
+Proof.
+  destruct formulas_examples as (_ & _ & _ & _ & _ & _ & _ & E1 & E2 & E3 & _).
+  split; [|split].
+  - erewrite find_numbers_percent_q by reflexivity. cbn [amt_val]. rewrite E1. reflexivity.
+  - erewrite find_numbers_percent_q by reflexivity. cbn [amt_val]. rewrite E2. reflexivity.
+  - erewrite find_total_from_percent_q by reflexivity. cbn [amt_val amt_with amount_token].
+    rewrite E3. reflexivity.
+Qed.
+
+End Examples.
+
+(* whole lines through the whole model at binary64 (lexer, rules, parser, interpreter): the value
+   of the single line of [text] *)
+Definition line_value64 (lang text : string) : option (ast float) :=
+  match exec64 CK0 default_config (s lang) (s text) with
+  | Ok r => match er_lines r with
+            | [Some l] => match lo_result l with LOk _ a => Some a | LErr _ => None end
+            | _ => None
+            end
+  | Panic _ => None
+  end.
+
+Definition money64 (x : float) (c : string) : ast float := AItem (IMoney x (s c)).
+Definition pct64 (x : float) : ast float := AItem (IPercent x).
+
+(* decimal literals denote the nearest binary64 value, as Rust's parse does *)
+Set Warnings "-inexact-float".
+Lemma line_examples :
+  line_value64 "en" "6% on 40" = Some (num 42.4) /\
+  line_value64 "en" "%6 on 40" = Some (num 42.4) /\
+  line_value64 "en" "40 on 6%" = Some (num 42.4) /\
+  line_value64 "en" "%6 off 40" = Some (num 37.6) /\
+  line_value64 "en" "40 of 6%" = Some (num 2.4) /\
+  line_value64 "en" "40 + 10%" = Some (num 44) /\
+  line_value64 "en" "40 + %10" = Some (num 44) /\
+  line_value64 "en" "-50 - 10%" = Some (num (-45)) /\
+  line_value64 "en" "50 + -10%" = Some (num 45) /\
+  line_value64 "en" "$40 - 10%" = Some (money64 36 "USD") /\
+  line_value64 "en" "0,5% of 1.000,5 eur" = Some (money64 5.0025 "EUR") /\
+  line_value64 "en" "20 is what % of 50" = Some (pct64 40) /\
+  line_value64 "en" "5 is what % of 0" = Some (pct64 0) /\
+  line_value64 "en" "20 try is %10 of what" = Some (money64 200 "TRY") /\
+  line_value64 "en" "5 is 0% of what" = Some (num 0) /\
+  line_value64 "tr" "6% on 40" = Some (num 42.4).
+Proof. vm_compute. repeat split. Qed.
+Set Warnings "inexact-float".
+
+(* ------------------------------------------------------------------------------------------ *)
+(* 7. packaging for Properties/C05.v                                                            *)
+(* ------------------------------------------------------------------------------------------ *)
+Lemma bindings {F} {NF : Num F} (vs : vars F) k fs ti :
+  assoc (s k) fs = Some ti ->
+  (forall x nt, ti_ty ti = Some (TNumber x nt) -> field_amount vs k fs = Some (Plain x)) /\
+  (forall x c, ti_ty ti = Some (TMoney x c) -> field_amount vs k fs = Some (Cash x c)) /\
+  (forall p, ti_ty ti = Some (TPercent p) -> field_percent vs k fs = Some p).
+Proof.
+  intros H. repeat split; intros.
+  - eapply field_amount_number; eassumption.
+  - eapply field_amount_money; eassumption.
+  - eapply field_percent_token; eassumption.
+Qed.
+
+Lemma zero_divisor (a b : Qc) :
+  @do_division Qc NumQ a b = (if Qc_eq_bool b 0 then 0 else a / b)%Qc /\
+  @do_division Qc NumQ a 0%Qc = 0%Qc.
+Proof. split; [apply do_division_q | rewrite do_division_q; apply gdiv_zero]. Qed.
+
+Lemma rule_ops {F} {NF : Num F} (cfg : config F) vs fs (a b : amount F) (p : F) :
+  (field_amount vs "number" fs = Some a -> field_percent vs "p" fs = Some p ->
+     let X := amt_val a in
+     number_on cfg vs fs = Ok (Some (amount_token (amt_with a (fadd X (do_division (fmul X p) f100))))) /\
+     number_of cfg vs fs = Ok (Some (amount_token (amt_with a (do_division (fmul X p) f100)))) /\
+     number_off cfg vs fs = Ok (Some (amount_token (amt_with a (fsub X (do_division (fmul X p) f100)))))) /\
+  (field_amount vs "part" fs = Some a -> field_amount vs "total" fs = Some b ->
+     find_numbers_percent vs fs
+     = Ok (Some (TPercent (do_division (fmul (amt_val a) f100) (amt_val b))))) /\
+  (field_amount vs "number_part" fs = Some a -> field_percent vs "percent_part" fs = Some p ->
+     find_total_from_percent cfg vs fs
+     = Ok (Some (amount_token (amt_with a (do_division (fmul (amt_val a) f100) p))))).
+Proof.
+  split; [|split].
+  - intros H1 H2 X. split; [|split].
+    + exact (number_on_ops cfg vs fs a p H1 H2).
+    + exact (number_of_ops cfg vs fs a p H1 H2).
+    + exact (number_off_ops cfg vs fs a p H1 H2).
+  - exact (find_numbers_percent_ops vs fs a b).
+  - exact (find_total_from_percent_ops cfg vs fs a p).
+Qed.
+
+Lemma ops_unfold {F} {NF : Num F} (X p A B : F) :
+  ops_on X p = fadd X (do_division (fmul X p) f100) /\
+  ops_off X p = fsub X (do_division (fmul X p) f100) /\
+  ops_of X p = do_division (fmul X p) f100 /\
+  ops_plus X p = fadd X (fmul (do_division X f100) p) /\
+  ops_minus X p = fsub X (fmul (do_division X f100) p) /\
+  ops_what_percent A B = do_division (fmul A f100) B /\
+  ops_of_what A p = do_division (fmul A f100) p.
+Proof. repeat split. Qed.
+
+Lemma rational_examples (cfg : config Qc) :
+  (let fs := [(s "number", qtok (TMoney (qz 40) (s "USD"))); (s "p", qtok (TPercent (qz 6)))] in
+   number_on cfg [] fs = Ok (Some (TMoney (qfrac 212 5) (s "USD"))) /\
+   number_of cfg [] fs = Ok (Some (TMoney (qfrac 12 5) (s "USD"))) /\
+   number_off cfg [] fs = Ok (Some (TMoney (qfrac 188 5) (s "USD")))) /\
+  find_numbers_percent []
+    [(s "part", qtok (TNumber (qz 20) Decimal)); (s "total", qtok (TNumber (qz 50) Decimal))]
+    = Ok (Some (TPercent (qz 40))) /\
+  find_numbers_percent []
+    [(s "part", qtok (TMoney (qz 5) (s "EUR"))); (s "total", qtok (TMoney (qz 0) (s "EUR")))]
+    = Ok (Some (TPercent (qz 0))) /\
+  find_total_from_percent cfg []
+    [(s "number_part", qtok (TMoney (qz 20) (s "TRY"))); (s "percent_part", qtok (TPercent (qz 10)))]
+    = Ok (Some (TMoney (qz 200) (s "TRY"))).
+Proof. split; [exact (rule_example_money cfg) | exact (rule_example_what cfg)]. Qed.
